@@ -316,7 +316,7 @@ def run_reuse(case):
             viol.append(V('c11.molecule_changed_on_reuse', f'{txt}: resolving the same base graph object a second time -> {M.describe(heavy)}; expected {M.describe(truth)}'))
         # now one fragment-less node gets a real edge: must be rejected although the graph was resolved before
         v = case['virtual'][case['sub'] % len(case['virtual'])]
-        nb = sorted(base[v])[0]
+        nb = sorted(base[v], key=str)[0]
         base.edges[v, nb]['order'] = 1 + case['sub'] % 3
         for target in (base, cg):
             try:
